@@ -154,7 +154,7 @@ func runControls(repo, verif, id string, base *Result) *controlsEvidence {
 	}
 	outs := make([]outcome, len(list))
 	var wg sync.WaitGroup
-	sem := make(chan struct{}, 8)
+	sem := make(chan struct{}, 10)
 	for i, s := range list {
 		wg.Add(1)
 		go func(i int, s *controlSite) {
@@ -454,7 +454,7 @@ func runSweep(repo, id string, base *Result) *SweepEvidence {
 	}
 	outs := make([]outc, len(cands))
 	var wg sync.WaitGroup
-	sem := make(chan struct{}, 12)
+	sem := make(chan struct{}, 10)
 	for i, c := range cands {
 		wg.Add(1)
 		go func(i int, c sweepSite) {
@@ -550,7 +550,7 @@ func sweepAll(repo string) {
 	}
 	var mu sync.Mutex
 	var wg sync.WaitGroup
-	sem := make(chan struct{}, 12)
+	sem := make(chan struct{}, 10)
 	for _, c := range cands {
 		wg.Add(1)
 		go func(c sweepSite) {
